@@ -39,12 +39,12 @@ def run(chk):
     layerb.check_sketch_specs(chk, ["SetSketch", "SuperMinHash", "SuperMinHash2"], quick)
     f, n, res = joinfam.gen_schedules(chk, "c13a", nitems=3, ninst=1, depth=4, maxslice=2, reinit=True)
     chk.cov["schedules_1inst"] = n
-    joinfam.replay_join(chk, f, KINDS, "reinit-1inst", stride=40 if quick else 4, ms=[1, 2, 3, 4, 5, 8], prop_tags=tags)
+    joinfam.replay_join(chk, f, KINDS, "reinit-1inst", stride=25 if quick else 2, ms=[1, 2, 3, 4, 5, 8], prop_tags=tags)
     f, n, res = joinfam.gen_schedules(chk, "c13b", nitems=2, ninst=2, depth=4, maxslice=1, slice_=False, merge=True, reinit=True)
     chk.cov["schedules_2inst"] = n
-    joinfam.replay_join(chk, f, ["ss_u16", "ss_u32"], "reinit-merge", stride=10 if quick else 1, ms=[1, 2, 3, 5], prop_tags=tags,
+    joinfam.replay_join(chk, f, ["ss_u16", "ss_u32"], "reinit-merge", stride=4 if quick else 1, ms=[1, 2, 3, 5], prop_tags=tags,
                         seed=chk.seed + 1)
-    joinfam.random_join(chk, KINDS, "random-reinit", runs=6 if quick else 40, length=200, nitems=150, ms=[1, 2, 3, 4, 6],
+    joinfam.random_join(chk, KINDS, "random-reinit", runs=12 if quick else 60, length=200, nitems=150, ms=[1, 2, 3, 4, 6],
                         reinit=True, prop_tags=tags)
     joinfam.random_join(chk, ["ss_u16", "ss_u32"], "random-reinit-merge", runs=4 if quick else 30, length=200, nitems=150,
                         ms=[1, 2, 3, 4], reinit=True, merge=True, prop_tags=tags, seed=chk.seed + 2)
